@@ -4,7 +4,7 @@ from harness import gen_seq
 from runner import Case, CaseSet
 
 ID = 'C06'
-OBLIGATIONS = ['Props/C06.v', 'Props/Tie/recode_tie.v', 'Props/Tie/charge_tie.v']
+OBLIGATIONS = ['Props/C06.v', 'Props/Tie/recode_tie.v', 'Props/Tie/charge_tie.v', 'Props/Tie/minipy_kappax_tie.v']
 RULE = ('random class sequences (N 5..40), every grouping of a sequence asked of ONE object back to back, x groupings: one union split several ways and unsplit,  random subsets of the 20 residues in mixed case / shuffled order / '
         'as list, tuple or string, disjoint and overlapping pairs, complements, the PEDKR and ED/KR groups, empty second '
         'group, groups containing a non-amino-acid (letter, digit, two-letter string, non-string); plus (also for every two-class pattern of length 5..9, thorough 11) Omega / Omega '
